@@ -143,4 +143,16 @@ PROPS = {
         "exhaustive": {"quick": False, "thorough": True},
         "floor": {"quick": 100000, "thorough": 1000000},
     },
+    "C05": {
+        "modes": ["dbg", "rel"],
+        "level": "fault_enumeration",
+        "technique": "runtime monitoring: fault injection on a valid server conversation (symbolic field faults from the reference server's field maps) under panic, allocation and CPU-time monitors, debug and release builds",
+        "level_text": "The reference server produces a valid setup conversation for three profiles and records where every field of every message lives; a fault plan replaces one message (connection confirm, connect response with GCC data, attach-user confirm, both channel-join confirms, licence, first demand-active) at the innermost layer (outer lengths re-computed) or on the final frame (blind poke): every value of every 8-bit field, boundary values of every 16/32-bit field in both byte orders, every truncation point, extensions, removal/duplication/swap of blocks, pairs of boundary faults, seeded random pokes and splices. Each faulted connect runs on the real client (plain stack, and Connector over TLS for the post-negotiation messages) under a panic recorder, a counting allocator (bound 256 KiB + 16 x bytes received) and a thread-CPU watchdog. In addition all byte strings up to length 2..3 (4 in the thorough tier for the cheapest) are fed to nine parser entries directly.",
+        "level_note": "Trusted: the monitors. A case counts as non-trivial only if the transport shows the client read into the faulted message. Byte strings beyond the exhaustive length are reached only through structured faults and random corruption; OpenSSL is out of scope (faults are injected above TLS).",
+        "rule": ("cases = (profile, message kind and occurrence, layer inner|frame, mutant) and (parser entry, byte string); distinct = hash of the mutated bytes and position; non-trivial = the client consumed bytes of the faulted message (probe on the transport's delivered counter) / the string is non-empty."),
+        "assumptions": ["outcome Ok or Err are both acceptable; only panic, abort, >20 s of thread CPU on one case, or an allocation out of proportion are violations"],
+        "exhaustive": {"quick": False, "thorough": False},
+        "floor": {"quick": 50000, "thorough": 1000000},
+        "wall_limit": {"quick": 1800, "thorough": 14400},
+    },
 }
